@@ -1,6 +1,9 @@
 package request
 
 import (
+	"encoding/base64"
+	"encoding/hex"
+
 	"github.com/vipnode/vipnode/v2/internal/verifapi"
 )
 
@@ -10,7 +13,25 @@ import (
 // the claimed identities are well-formed so that the native replay gets past
 // the identity parsing too.
 func VerifC15Verify() {
+	// the signature: an arbitrary string whose decoding is arbitrary (bytes of any length, or an error)
+	// - or one of a family of concrete strings that the real decoders take apart: hex and base64 of
+	// 0, 1, 63, 64, 65, 66 bytes, with and without 0x, odd lengths, not an encoding at all
 	sig := verifapi.StrAtom("sig")
+	if k := verifapi.Choose("concrete-signature", 16); k > 0 {
+		n := []int{0, 1, 63, 64, 65, 66}[(k-1)%6]
+		raw := make([]byte, n)
+		for i := range raw {
+			raw[i] = byte(27 + i%3)
+		}
+		switch (k - 1) / 6 {
+		case 0:
+			sig = hex.EncodeToString(raw)
+		case 1:
+			sig = "0x" + hex.EncodeToString(raw)
+		default:
+			sig = []string{base64.StdEncoding.EncodeToString(raw), "0x0", "%%"}[(k-1)%3]
+		}
+	}
 	method := "vipnode_connect"
 	nonce := verifapi.Int64("nonce")
 	var err error
